@@ -45,11 +45,13 @@ type funcBody struct {
 }
 
 type staticAnalysis struct {
-	fset   *token.FileSet
-	pkgs   map[string]*staticPkg
-	funcs  map[string]*funcBody
-	unrec  map[string]int
-	errors []string
+	fset       *token.FileSet
+	pkgs       map[string]*staticPkg
+	funcs      map[string]*funcBody
+	unrec      map[string]int
+	errors     []string
+	targets    map[string]bool
+	classified map[string]string
 }
 
 // entry functions: unit name -> (function, model operations whose templates are its paths)
@@ -858,8 +860,8 @@ func (w *walker) stmt(fb *funcBody, s ast.Stmt, held []heldLock, depth int, defe
 				name = fn.FullName()
 			}
 		}
-		if op, ok := spawnOp[name]; ok {
-			if op != "" {
+		if op := w.sa.classifyGo(name); op != "" && !strings.HasPrefix(op, "?") {
+			if op != "icmp6.radvs" {
 				w.locks["go:"+op] = true
 			}
 		} else {
@@ -1039,11 +1041,7 @@ func (sa *staticAnalysis) goCensus() string {
 					name = fn.FullName()
 				}
 			}
-			if op, ok := censusOp[name]; ok {
-				set[op] = true
-			} else {
-				set["?"+name] = true
-			}
+			set[sa.classifyGo(name)] = true
 			return true
 		})
 	}
@@ -1074,6 +1072,26 @@ func (sa *staticAnalysis) analyse3(fn string) (locks, unlocked, writes string, o
 	if fb == nil {
 		return "", "", "", false
 	}
+	return sa.analyseBody(fb)
+}
+
+// goroutine bodies are found by what they do, not by their name: "<parent>#k" literal or a named method
+func (sa *staticAnalysis) goTargetOf(op string) *funcBody {
+	var names []string
+	for n := range sa.goTargets() {
+		names = append(names, n)
+	}
+	sort.Strings(names)
+	for _, n := range names {
+		if sa.classifyGo(n) == op && sa.funcs[n] != nil {
+			return sa.funcs[n]
+		}
+	}
+	return nil
+}
+
+func (sa *staticAnalysis) analyseBody(fb *funcBody) (locks, unlocked, writes string, ok bool) {
+	fn := fb.name
 	w := &walker{sa: sa, locks: map[string]bool{}, fields: map[string]bool{}, writes: map[string]bool{}, alias: map[types.Object]string{},
 		lockAlias: map[types.Object]string{}}
 	// a literal's enclosing function supplies the lits table used to name nested go statements
@@ -1097,4 +1115,114 @@ func setText(m map[string]bool) string {
 	}
 	sort.Strings(s)
 	return strings.Join(s, ",")
+}
+
+// goTargets: the function (literal "<parent>#k" or named) started by every `go` statement of the five packages
+func (sa *staticAnalysis) goTargets() map[string]bool {
+	if sa.targets != nil {
+		return sa.targets
+	}
+	sa.targets = map[string]bool{}
+	for _, fb := range sa.funcs {
+		if strings.Contains(fb.name, "#") {
+			continue
+		}
+		k := 0
+		ast.Inspect(fb.body, func(n ast.Node) bool {
+			g, ok := n.(*ast.GoStmt)
+			if !ok {
+				return true
+			}
+			if _, ok := g.Call.Fun.(*ast.FuncLit); ok {
+				k++
+				sa.targets[fmt.Sprintf("%s#%d", fb.name, k)] = true
+				return true
+			}
+			var fn *types.Func
+			switch f := g.Call.Fun.(type) {
+			case *ast.Ident:
+				fn, _ = fb.pkg.info.Uses[f].(*types.Func)
+			case *ast.SelectorExpr:
+				if sel := fb.pkg.info.Selections[f]; sel != nil {
+					fn, _ = sel.Obj().(*types.Func)
+				}
+			}
+			if fn != nil {
+				sa.targets[fn.FullName()] = true
+			}
+			return true
+		})
+	}
+	return sa.targets
+}
+
+// classifyGo names the goroutine a `go` statement starts by WHAT ITS BODY DOES (package, locks it takes, whether it
+// starts goroutines itself, the heartbeat field), so that turning a literal into a named method, or renaming
+// one, does not change the census.
+func (sa *staticAnalysis) classifyGo(name string) string {
+	if op, ok := sa.classified[name]; ok {
+		return op
+	}
+	if sa.classified == nil {
+		sa.classified = map[string]string{}
+	}
+	sa.classified[name] = "?" + name // recursion guard
+	fb := sa.funcs[name]
+	if fb == nil {
+		return "?" + name
+	}
+	w := &walker{sa: sa, locks: map[string]bool{}, fields: map[string]bool{}, writes: map[string]bool{}, alias: map[types.Object]string{},
+		lockAlias: map[types.Object]string{}}
+	w.function(fb, nil, 0)
+	acq := func(class string) bool {
+		for k := range w.locks {
+			if strings.Contains(k, ">"+class+":") {
+				return true
+			}
+		}
+		return false
+	}
+	spawns := false
+	for k := range w.locks {
+		if strings.HasPrefix(k, "go:") {
+			spawns = true
+		}
+	}
+	heartbeat := false
+	ast.Inspect(fb.body, func(n ast.Node) bool {
+		if se, ok := n.(*ast.SelectorExpr); ok && se.Sel.Name == "ipHeartBeat" {
+			heartbeat = true
+		}
+		return true
+	})
+	op := "?" + name
+	switch fb.pkg.path {
+	case pktPath:
+		switch {
+		case acq("Row") || acq("Sess"):
+			op = "purge"
+		case heartbeat:
+			op = "nicMonitor"
+		case spawns:
+			op = "minuteLoop"
+		default:
+			op = "purge.probe"
+		}
+	case pktPath + "/handlers/arp_spoofer":
+		if acq("Arp") {
+			op = "arp.spoofLoop"
+		}
+	case pktPath + "/handlers/icmp_spoofer":
+		if acq("Icmp6") {
+			op = "icmp6.spoofLoop"
+		} else {
+			op = "icmp6.radvs"
+		}
+	case pktPath + "/handlers/dhcp4_spoofer":
+		if !acq("Dhcp") {
+			op = "dhcp4.sendDeclineRelease"
+		}
+	}
+	sa.classified[name] = op
+	return op
 }
